@@ -42,10 +42,10 @@ func (e *NestExpr) Eval(ctx context.Context, local Scope) (Value, error) {
 			return nil, err
 		}
 		attrs := e.attrs
+		if err := validNestOp(relAttrs, attrs); err != nil {
+			return nil, WrapContextErr(err, e, local)
+		}
 		if e.inverse {
-			if err := validNestOp(relAttrs, attrs); err != nil {
-				return nil, WrapContextErr(err, e, local)
-			}
 			attrs = relAttrs.Minus(attrs)
 			if !attrs.IsTrue() {
 				return nil, WrapContextErr(
@@ -53,6 +53,12 @@ func (e *NestExpr) Eval(ctx context.Context, local Scope) (Value, error) {
 					e, local,
 				)
 			}
+		}
+		if relAttrs.Minus(attrs).Has(e.attr) {
+			return nil, WrapContextErr(
+				fmt.Errorf("nest attr %q clashes with an attr that is not nested (%v)", e.attr, relAttrs.Minus(attrs)),
+				e, local,
+			)
 		}
 		return Nest(set, relAttrs, attrs, e.attr), nil
 	}
